@@ -121,7 +121,8 @@ Print Assumptions c04_has_group_no_panic.
 
 (* ---- builtins that reach Decimal.Mul / Decimal.QuoRem: the zero-divisor and arity guards hold (no bounds or
    division-by-zero panic for any arguments); what is NOT excluded is the decimal library's own panic when
-   exponents leave int32 — reachable in goflow today, see c04_decimal_exponent_panic_reachable ---- *)
+   exponents are more than 2^31 apart (proofs/ExEvalProofs.v quorem_exponent_panics: a model-level witness; no
+   evaluation produces such numbers since * and ^ limit exponents to +-100000, an invariant NOT proved here) ---- *)
 
 Theorem c04_mod_panics_only_on_exponent_overflow_partial : forall wclass regex ext args c,
   call_function wclass regex ext FMod args = Panic c -> c = PExponent.
@@ -190,11 +191,18 @@ Theorem c04_eval_panics_only_on_exponent_overflow_partial : forall wclass regex 
 Proof. exact eval_exponent_only. Qed.
 Print Assumptions c04_eval_panics_only_on_exponent_overflow_partial.
 
-(* full totality is FALSE of the faithful model (and of goflow): the multiplication panics *)
-Theorem c04_decimal_exponent_panic_reachable :
-  eval_binop OMul (VNum (Dec 1 (-2000000000))) (VNum (Dec 1 (-2000000000))) = Panic PExponent.
-Proof. exact mul_exponent_panics. Qed.
-Print Assumptions c04_decimal_exponent_panic_reachable.
+(* every operator other than / : no panic of any class, for all operands (Multiply checks the exponent sum) *)
+Theorem c04_operators_no_panic : forall op x y c, op <> ODiv -> eval_binop op x y <> Panic c.
+Proof. exact binop_no_panic_statement. Qed.
+Print Assumptions c04_operators_no_panic.
+
+(* a product whose decimal exponent would leave +-100000 is an error value
+   (`@(0.1 ^ 100000 * 0.1 ^ 100000)`; before the repair `@(0.1 ^ 2000000000 * 0.1 ^ 2000000000)` panicked) *)
+Theorem c04_multiply_out_of_range_is_error : forall x y n1 n2, to_number x = Ok n1 -> to_number y = Ok n2 ->
+  (dexp n1 + dexp n2 < - max_number_exponent \/ max_number_exponent < dexp n1 + dexp n2)%Z ->
+  eval_binop OMul x y = Ret VErr.
+Proof. exact multiply_out_of_range. Qed.
+Print Assumptions c04_multiply_out_of_range_is_error.
 
 (* ---- work of the loops driven by a numeric argument (repeat, round, round_up, round_down) is bounded by
    argument size + result size.  PARTIAL: numeric TEXT arguments are assumed at least as long as the number
